@@ -399,6 +399,18 @@ func runC20(r *ev.Run) {
 			train = append(train, o)
 		}
 		t0 := clone2D(train)
+		if i%3 == 0 {
+			// the same quantiser object was trained before, on a much WIDER range: the second Train replaces the range
+			// (everything below is judged against the range of the last training set, as for a fresh quantiser)
+			wide := make([]float32, dim)
+			f := float32(10 + rng.Float64()*990)
+			for j := range wide {
+				wide[j] = v[j] * f
+			}
+			wide[rng.IntN(dim)] = float32(scale) * f
+			iq.Train([][]float32{wide})
+			r.Count("i8-retrained-on-a-narrower-range", 1)
+		}
 		iq.Train(train)
 		if !same2D(train, t0) {
 			fail("quant.i8.train-mutates-input", "int8 Train modified the training vectors")
